@@ -130,8 +130,8 @@ class C02(Prop):
         "histories: a history has its own directory (named by the hash of the case), so its verdict does not depend on what the worker process "
         "imported before; what the caller does to returned objects is: overwrite arrays in place, empty the params dict, reverse and extend "
         "the returned list (objects that refuse are left alone: the property does not demand writable results)",
-        "call options: drop_names is left at its default in every call (the property does not say what an image with a kept time column or a "
-        "dropped element is); an omitted option is modelled by the default of the current signature; counts_per_second=True is only called on "
+        "call options: drop_names is passed or omitted like the other options; what is compared is the whole returned array (every field "
+        "left, a kept time field included: last field of load_binary's array, first of load_csv's); an omitted option is modelled by the default of the current signature; counts_per_second=True is only called on "
         "count-valued batches (bit-pattern batches hold NaNs/infinities that the exact division of the model does not describe)",
         "scantime is compared to within 0.5e-4 of the exact mean interval (the code rounds to 4 places) and, for the CSV import, only when no "
         "line's CSV is missing (DESIGN 5.2 boundary decision; counted as feature 'scantime-not-compared:blank-line')",
